@@ -17,6 +17,7 @@ GROUPS = {
     'elementary': ['_exp', '_log', '_sqrt', '_pow_real', '_sincos', '_tansec2', '_arcsin', '_arccos', '_arctan',
                    '_sinhcosh', '_tanhsech2', '_reciprocal', '_square', '_absolute', '_sign', '_minimum', '_maximum',
                    '_botched_clip', '_negative'],
+    'composite': ['_expm1', '_logit', '_expit', '_log1p', '_dawsn', '_erf', '_erfi', '_hyperu', '_polygamma', '_psi', '_gammaln'],
     'helpers': ['_black_f_white_fprime', '_eval_slow_generic', '_taylor_polynomials_of_ode_solutions', '_plus_const'],
     'arith': ['_mul', '_amul', '_itruediv', '_truediv'],
     'linalg': ['_dot', '_dot_non_UTPM_x', '_dot_non_UTPM_y', '_outer', '_outer_non_utpm_x', '_outer_non_utpm_y',
@@ -64,11 +65,11 @@ DEGREE_GUARDS = {
 }
 
 PROP_GROUPS = {
-    'C01': (['elementary', 'helpers'], ('O3', 'O4', 'O5', 'O7', 'CTRL', 'RESHAPE')),
+    'C01': (['elementary', 'helpers', 'composite'], ('O3', 'O4', 'O5', 'O7', 'CTRL', 'RESHAPE')),
     'C02': (['arith'], ('O3', 'O4', 'O5', 'O7', 'CTRL', 'RESHAPE')),
     'C07': (['linalg', 'det'], ('O3', 'O4', 'O5', 'O7', 'CTRL', 'RESHAPE')),
     'C08': (['factor'], ('O3', 'O4', 'O5', 'O7', 'CTRL', 'RESHAPE')),
-    'C12': (['elementary', 'helpers', 'arith', 'linalg', 'factor', 'maps'], ('O1', 'O2', 'C12.D', 'CTRL')),
+    'C12': (['elementary', 'helpers', 'composite', 'arith', 'linalg', 'factor', 'maps'], ('O1', 'O2', 'C12.D', 'CTRL')),
     'C13': (['maps'], ('O1', 'O3')),
 }
 
